@@ -29,8 +29,9 @@ fn cls(r: Result<(), fst::Error>) -> CallResult {
 fn drive<W: Write>(case: &Case, fe: usize, w: W, sink: &Sink) -> Vec<CallResult> {
     let mut out = vec![];
     let kv = &case.kv;
+    let bulk = fe / 8 % 2 == 1;
     macro_rules! go {
-        ($new:expr, $ins:expr) => {{
+        ($new:expr, $ins:expr, $bulk:expr) => {{
             sink.set_phase(0);
             let mut b = match $new {
                 Ok(b) => {
@@ -42,24 +43,41 @@ fn drive<W: Write>(case: &Case, fe: usize, w: W, sink: &Sink) -> Vec<CallResult>
                     return out;
                 }
             };
-            for (i, (k, v)) in kv.iter().enumerate() {
-                sink.set_phase(i + 1);
-                let r = cls($ins(&mut b, k, *v));
+            if bulk {
+                // one bulk call carries all keys: it is builder call #1
+                sink.set_phase(1);
+                let r = cls($bulk(&mut b));
                 let stop = r != CallResult::Ok;
                 out.push(r);
                 if stop {
                     return out;
                 }
+                sink.set_phase(2);
+            } else {
+                for (i, (k, v)) in kv.iter().enumerate() {
+                    sink.set_phase(i + 1);
+                    let r = cls($ins(&mut b, k, *v));
+                    let stop = r != CallResult::Ok;
+                    out.push(r);
+                    if stop {
+                        return out;
+                    }
+                }
+                sink.set_phase(kv.len() + 1);
             }
-            sink.set_phase(kv.len() + 1);
-            out.push(cls(b.into_inner().map(|_| ())));
+            // finish() and into_inner() alternate
+            if fe / 4 % 2 == 0 {
+                out.push(cls(b.into_inner().map(|_| ())));
+            } else {
+                out.push(cls(b.finish()));
+            }
         }};
     }
     match fe % 4 {
-        0 => go!(Builder::new(w), |b: &mut Builder<W>, k: &Vec<u8>, v: u64| b.insert(k, v)),
-        1 => go!(MapBuilder::new(w), |b: &mut MapBuilder<W>, k: &Vec<u8>, v: u64| b.insert(k, v)),
-        2 => go!(SetBuilder::new(w), |b: &mut SetBuilder<W>, k: &Vec<u8>, _v: u64| b.insert(k)),
-        _ => go!(Builder::new_type(w, 7), |b: &mut Builder<W>, k: &Vec<u8>, _v: u64| b.add(k)),
+        0 => go!(Builder::new(w), |b: &mut Builder<W>, k: &Vec<u8>, v: u64| b.insert(k, v), |b: &mut Builder<W>| b.extend_stream(crate::build::VecStream::new(kv))),
+        1 => go!(MapBuilder::new(w), |b: &mut MapBuilder<W>, k: &Vec<u8>, v: u64| b.insert(k, v), |b: &mut MapBuilder<W>| if fe / 16 % 2 == 0 { b.extend_iter(kv.iter().map(|(k, v)| (k, *v))) } else { b.extend_stream(crate::build::VecMapStream(crate::build::VecStream::new(kv))) }),
+        2 => go!(SetBuilder::new(w), |b: &mut SetBuilder<W>, k: &Vec<u8>, _v: u64| b.insert(k), |b: &mut SetBuilder<W>| if fe / 16 % 2 == 0 { b.extend_iter(kv.iter().map(|(k, _)| k)) } else { b.extend_stream(crate::build::VecSetStream(crate::build::VecStream::new(kv))) }),
+        _ => go!(Builder::new_type(w, 7), |b: &mut Builder<W>, k: &Vec<u8>, _v: u64| b.add(k), |b: &mut Builder<W>| b.extend_iter(kv.iter().map(|(k, _)| (k, fst::raw::Output::zero())))),
     }
     out
 }
@@ -111,6 +129,8 @@ fn inject(case: &Case, fe: usize, buffered: Option<usize>, pol: Policy, clean: &
             ("case", case.describe()),
             ("policy", J::s(format!("{:?}", pol))),
             ("front_end", J::s(["raw::Builder insert", "MapBuilder", "SetBuilder", "raw::Builder add"][fe % 4])),
+            ("ends_with", J::s(if fe / 4 % 2 == 0 { "into_inner()" } else { "finish()" })),
+            ("keys_arrive_through", J::s(if fe / 8 % 2 == 1 { "one extend_iter/extend_stream call" } else { "single inserts" })),
             ("bufwriter_capacity", match buffered {
                 Some(c) => J::U(c as u64),
                 None => J::Null,
@@ -197,7 +217,9 @@ pub fn run(ctx: &Ctx) -> i32 {
             if ci % n != shard {
                 continue;
             }
-            let fes: Vec<usize> = if case.set { vec![2, 3, 0] } else { vec![0, 1] };
+            // low 2 bits: front end; bit 2: finish() instead of into_inner(); bit 3: one bulk call (extend_iter /
+            // extend_stream) instead of single inserts; bit 4: which bulk call
+            let fes: Vec<usize> = if case.set { vec![2, 3 + 4, 0, 2 + 8, 2 + 8 + 16 + 4, 3 + 8] } else { vec![0, 1 + 4, 0 + 8 + 4, 1 + 8, 1 + 8 + 16] };
             for &fe in &fes {
                 // clean run: number of write calls, reference bytes
                 let clean_sink = Sink::new(Policy::Full);
@@ -252,7 +274,7 @@ pub fn run(ctx: &Ctx) -> i32 {
         ev,
         Spec {
             level: "fault_enumeration",
-            rule: "one evaluation = one complete builder session (new, inserts, into_inner) on a sink that fails exactly once: at write call i (error return of several kinds or a zero-length accept) or at the final flush; the sink log records which builder call was in progress; that call must return Err(Error::Io) - not Ok, not another error, not a panic - and no call after the header may have been reported Ok beyond it; sessions whose fault index lies past the last write must finish with every byte delivered and flushed; fault positions: EVERY write call index of the clean run (quick: <=400 evenly spaced when there are more) for each input x front ends {raw insert, MapBuilder, SetBuilder, raw add with a type}; the same through BufWriter(16|64|8192) where the fault surfaces when the buffer drains; non-trivial = every session; distinct = (input, front end, fault position/kind), distinct by construction",
+            rule: "one evaluation = one complete builder session (new, inserts, into_inner) on a sink that fails exactly once: at write call i (error return of several kinds or a zero-length accept) or at the final flush; the sink log records which builder call was in progress; that call must return Err(Error::Io) - not Ok, not another error, not a panic - and no call after the header may have been reported Ok beyond it; sessions whose fault index lies past the last write must finish with every byte delivered and flushed; fault positions: EVERY write call index of the clean run (quick: <=400 evenly spaced when there are more) for each input x front ends {raw insert, MapBuilder, SetBuilder, raw add with a type} x {single inserts, one extend_iter / extend_stream call} x {into_inner, finish}; the same through BufWriter(16|64|8192) where the fault surfaces when the buffer drains; non-trivial = every session; distinct = (input, front end, fault position/kind), distinct by construction",
             assumptions: vec!["ErrorKind::Interrupted is a retry request, not a failure (C07 covers it)".into(), "behaviour of a builder AFTER it returned an I/O error is not judged".into()],
             floors: vec![
                 ("site:header", 10),
